@@ -53,6 +53,7 @@ StateDiag(s) ==
     ELSE IF ~NameIdxSoundS(s) THEN "C16/TS/NameIndexUnsound"
     ELSE IF ~RefIdxSoundS(s) THEN "C16/TS/RefIndexDangling"
     ELSE IF ~NoDanglingS(s) THEN "C16/TS/DanglingChild"
+    ELSE IF ~NamedIndexedS(s) THEN "C16/TS/NamedEntryNotIndexed"
     ELSE "ok"
 
 (* ---- step relation ----------------------------------------------------- *)
